@@ -315,6 +315,27 @@ def run(ctx, model_ok):
                 'trace-identifier words built from every namespace/type/flag enum incl. flag sets, timezone/loss/backtrace '
                 'shapes, decomposed messages from a grammar with 0..3 segments); every 7th malformed (missing mandatory key, '
                 'out-of-range enum / string index, unknown key); non-trivial = distinct decodable record with >= 3 optional keys')
+    # the same records read back from inside a version-3 dump whose thread map declares the record's thread: the container
+    # hands the record to the decoder unchanged (absent keys stay absent)
+    vidx = [i for i, (mode, st, ev) in enumerate(gens) if mode != 'malformed' and 'ok' in res[i] and len(set(st)) == len(st)]
+    vidx = vidx[:(60 if ctx.quick() else 1200)]
+    vreq = []
+    for i in vidx:
+        _, st, ev = gens[i]
+        tid = dict(ev).get('tid', {'i': 0})
+        tid = tid.get('i', 0) if isinstance(tid, dict) else 0
+        vreq.append({'strings': [[j, s] for j, s in enumerate(st)], 'event': Dd(ev), 'via_dump': True,
+                     'threads': [[tid, 4242, 'mapped-process'], [1, 1, 'launchd']]})
+    vres = vlib.run_impl('run_oslog.py', {'cases': vreq})['results'] if vreq else []
+    ctx.evaluations += len(vreq)
+    for i, r2 in zip(vidx, vres):
+        if r2.get('ok') != res[i]['ok']:
+            _, st, ev = gens[i]
+            diff = [(a[0], a[1], b[1]) for a, b in zip(res[i]['ok'], r2.get('ok') or []) if a != b][:3]
+            ctx.failing.append({'input': {'strings': st, 'event': [list(e) for e in ev], 'inside_a_dump_whose_thread_map_declares_the_thread': True},
+                                'expected': {d[0]: d[1] for d in diff} or 'the decoded record', 'actual': {d[0]: d[2] for d in diff} or r2,
+                                'why': 'decoded record differs from: present keys carry their (converted) values, absent keys keep '
+                                       'their defaults (the record was read from a dump whose thread map declares its thread)'})
     cases = []
     keyset = {k for k, _, _ in x['optional']}
     field_of = {k: f for k, f, _ in x['mandatory'] + x['optional']}
